@@ -37,6 +37,37 @@ CLAIMS = {
         'the value from the first table on the LOCAL->FILE->GLOBAL chain, a definition changes exactly the table of the label\'s kind, '
         'and keywords, duplicates, register names and labels with no scope of their kind are rejected.',
    note='How the loader assigns scopes to lines (AssemblyFile.load_line_objects) is not yet under contract.'),
+ 'C07': dict(tech='contract-based deductive verification (pyvc + z3) of the evaluator; BOUNDED exhaustive stand-in for the parser',
+   text='ExpressionNode._compute / get_value / _numeric_value are verified against a recursive spec function taken from the '
+        'statement (exact rationals, real quotient, floor-modulus, bit operators on integer parts, byte n of the two\'s-complement '
+        'representation, final truncation toward zero; unresolved labels exit).  The recursive-descent parser is NOT within the '
+        'generator\'s reach: it is covered by a bounded stand-in (all token sequences up to 4 / 5 tokens over 17 symbols against a '
+        'reference evaluator), reported separately and never counted as proved.',
+   note='parser and lexer only bounded; literal notations (parse_numeric_string) not under contract; int.to_bytes after masking is a sampled axiom.'),
+ 'C13': dict(tech='contract-based deductive verification (pyvc + z3): first-match loop invariants',
+   text='The variant loop (InstructionBytecodeGenerator.generate_bytecode_parts) and the operand-set loop (OperandSet.parse_operand) are '
+        'proved to return the result of the FIRST alternative, in list order, whose matcher accepts (and to reject when none does); '
+        'NumericExpressionOperand._parse_bytecode_parts never accepts an expression mentioning a register; the documented precedence '
+        'of operand types is a constant lemma over the OperandType enum read from the source.',
+   note='Which strings each operand pattern accepts is regex matching (assumed deterministic contracts); specific-operand and '
+        'disallowed-pair handling, and the stable sort of OperandSet.__init__, are not yet under contract.'),
+ 'C14': dict(tech='contract-based deductive verification (pyvc + z3) of the rejecting kernels + AST audit of the image-write position',
+   text='Every byte-producing line has its bytes generated (so unresolvable labels / violated constraints exit) before any output, '
+        'reserved sizes are never negative, relative-offset / label-resolution kernels exit exactly as specified; a mechanical audit of '
+        'the current engine source shows the image write is unique, guarded only by the generate-binary flag, and followed by nothing that can abort.',
+   note='Termination of the line parser loop and of include / symbol recursion rests on regex-based factories and is not proved; '
+        'for-loops over finite sequences terminate by construction; environment failures (I/O) out of scope.'),
+ 'C15': dict(tech='AST audit of set-order-sensitive sites + contract-based proof of order independence (pyvc + z3)',
+   text='Every order-sensitive use of a set on the compile path is enumerated from the current source and accepted only by a stated '
+        'rule; the one loop whose result could depend on iteration order (include-file lookup) is proved independent of an arbitrary '
+        'enumeration of the set.',
+   note='Set-typedness is inferred from annotations and constructors, not proved; C-extension nondeterminism excluded.'),
+ 'C19': dict(tech='contract-based deductive verification (pyvc + z3): validation kernels',
+   text='Accepted definitions satisfy: required sections present; min_version gates by semantic-version order; no mnemonic (instruction or '
+        'macro, any letter case) is a keyword; macro names differ from instruction names; operand counts equal the lengths of operand sets '
+        'and of every listed combination; numeric bytecode ranges not inverted; memory zones inside the address space.',
+   note='packaging.version ordering is trusted (abstract rank); RequiredLanguageLine, register validation and "well-formed definitions are never '
+        'rejected" (no other exit reachable) are not under contract; Instruction / InstructionMacro construction assumed.'),
  'C12': dict(tech='contract-based deductive verification (pyvc + z3): exits-iff contracts on every constrained byte-code part and on bit packing',
    text='Exceptional postconditions (raised IFF condition) on the real get_value of the min/max, memory-zone, enumeration, relative-address '
         'and sliced-address parts, and on PackedBits.append_bits / AssembledInstruction.get_bytes (value fits the signed-or-unsigned range of its field width 1..64).',
@@ -47,7 +78,7 @@ NA = {
  'C20': 'well-formedness is produced by json/yaml/zipfile/shutil and classification decided by third-party regex engines; no in-repo function carries the property (DESIGN.md section 7)',
 }
 PENDING = {p: 'kernel not yet brought under contract in this build (see DESIGN.md build order); not claimed on a weaker basis'
-           for p in ['C07', 'C08', 'C09', 'C10', 'C11', 'C13', 'C14', 'C15', 'C16', 'C17', 'C19']}
+           for p in ['C08', 'C09', 'C10', 'C11', 'C16', 'C17']}
 
 def main():
     checks = []
